@@ -20,7 +20,8 @@ HeapFrom(c) ==
       memset == ToSet(w.members)
   IN [ exists   |-> [k \in Copies |-> k = "o"],
        parented |-> c.parented,
-       unit     |-> [k \in Copies |-> [name |-> w.name, tab |-> "o", spec |-> "o", body |-> "o", mem |-> "o"]],
+       unit     |-> [k \in Copies |-> [name |-> w.name, tab |-> "o", spec |-> "o", body |-> "o", mem |-> "o", nest |-> "o"]],
+       nest     |-> [r \in Copies |-> [i \in NestIds |-> [types |-> [n \in NestNames |-> w.ntab[i][n]], parent |-> "o", scope |-> "o"]]],
        tabs     |-> [r \in Copies |-> [types |-> [n \in TabNames |-> w.tab[n]],
                                        procs |-> [m \in MemToks |-> IF m \in memset THEN "o" ELSE None]]],
        specs    |-> [r \in Copies |-> [decl |-> {v \in Vars : w.decl[v] # None}, marks |-> w.spec, scope |-> "o"]],
@@ -35,10 +36,11 @@ ParImage(p) == <<[n \in NameToks |-> p.reg[n]], ToSet(p.sibcalls), p.pmembers, p
 \*   O OriginalUnchangedByClone  C CloneFaithful  E Effect  U OtherCopyUnchanged  S SymbolsResolveInOwnChain
 \*   P ParentScopeOfOriginalUnchanged
 Abbr(x) == CASE x = "name" -> "na" [] x = "decl" -> "de" [] x = "tab" -> "ta" [] x = "occ" -> "oc" [] x = "mocc" -> "mo"
-             [] x = "body" -> "bo" [] x = "spec" -> "sp" [] x = "members" -> "me" [] OTHER -> x
+             [] x = "body" -> "bo" [] x = "spec" -> "sp" [] x = "members" -> "me" [] x = "ntab" -> "nt" [] x = "nocc" -> "nc"
+             [] OTHER -> x
 
 \* all clauses of one event as <<violated?, name>>, in reporting order
-Tags(w) == <<w.owners, w.memparent, w.memtab, w.calls, w.tdef>>
+Tags(w) == <<w.owners, w.memparent, w.memtab, w.calls, w.tdef, w.nparent, w.nown>>
 Checks(c, s1, e, before, base) ==
   LET live == {k \in Copies : s1.exists[k]}
       tgt  == e.k
@@ -49,7 +51,7 @@ Checks(c, s1, e, before, base) ==
       \* an identity tag set is judged when the copy is created and whenever it changes
       fresh(k, f) == k \in live /\ ((isC /\ k = "c") \/ e.after[k][f] # before[k][f])
       allowed(f) == CASE f = "owners" -> {"self"} \cup (IF c.parented THEN {"parent"} ELSE {})
-                      [] f = "memparent" -> {"self"}
+                      [] f \in {"memparent", "nparent", "nown"} -> {"self"}
                       [] OTHER -> {"own"}
       bad(k, f) == fresh(k, f) /\ ~(ToSet(e.after[k][f]) \subseteq allowed(f))
       pi   == ParImage(e.after.par)
@@ -65,16 +67,16 @@ Checks(c, s1, e, before, base) ==
     <<~isC /\ oth \in live /\ e.after[oth].text # before[oth].text, "U:tx">>,
     <<~isC /\ oth \in live /\ Tags(e.after[oth]) # Tags(before[oth]), "U:id">>,
     <<bad("c", "owners"), "S:c:ow">>, <<bad("c", "memparent"), "S:c:mp">>, <<bad("c", "memtab"), "S:c:mt">>,
-    <<bad("c", "calls"), "S:c:ca">>, <<bad("c", "tdef"), "S:c:td">>,
+    <<bad("c", "calls"), "S:c:ca">>, <<bad("c", "tdef"), "S:c:td">>, <<bad("c", "nparent"), "S:c:np">>, <<bad("c", "nown"), "S:c:no">>,
     <<bad("o", "owners"), "S:o:ow">>, <<bad("o", "memparent"), "S:o:mp">>, <<bad("o", "memtab"), "S:o:mt">>,
-    <<bad("o", "calls"), "S:o:ca">>, <<bad("o", "tdef"), "S:o:td">>,
+    <<bad("o", "calls"), "S:o:ca">>, <<bad("o", "tdef"), "S:o:td">>, <<bad("o", "nparent"), "S:o:np">>, <<bad("o", "nown"), "S:o:no">>,
     <<pi # base,                                        "P">>
   >>
 
 \* Clauses whose violation makes the real objects diverge from the model end the validation of the history;
 \* violated identity clauses (SymbolsResolveInOwnChain, ParentScopeOfOriginalUnchanged) are recorded and the
 \* validation continues, so that one (possibly known) defect does not mask the later steps.
-Fatal(name) == SubSeq(name, 1, 1) \in {"O", "C", "E", "U"}
+Fatal(name) == SubSeq(name, 1, 1) \in {"O", "C", "E", "U"} /\ name \notin {"O:id", "U:id"}   \* (identity tags do not enter the model state)
 
 \* "clause@step;" for the violated clauses of one step, in order: at most `room` identity clauses, then the first
 \* content clause (if any), which ends the history
